@@ -24,7 +24,7 @@ ASSUMPTIONS = ['membership of the ones vector is generated with a margin (exact 
                'relative tolerance 1e-6']
 PLAN = {
     'quick': dict(cases=640, budget_s=60, case_timeout=120, min_cases=150),
-    'thorough': dict(cases=30000, budget_s=1500, case_timeout=240, min_cases=5000),
+    'thorough': dict(cases=20000, budget_s=900, case_timeout=240, min_cases=3333),
 }
 KINDS = ['identity', 'scaled', 'prefix', 'ranges', 'square', 'tall', 'integer', 'sparse', 'rankdef_with_ones',
          'rankdef_without_ones', 'total_row', 'wide_without_ones']
